@@ -187,3 +187,10 @@ def check(ctx):
     ctx.notes.append("not decided: 'yields exactly v up to the delay' beyond C02/R1 + C13 endpoint facts; comparison "
                      "with an un-substituted twin at all times")
     ctx.assumptions.append("division is monotone and correctly rounded, so time-since-delay >= D implies quot >= 1")
+
+
+def controls(ctx, F):
+    from rules import c03
+    tab = TT.build(ctx, F, adt=c03.CTL_TS)
+    rules_loop_state(ctx, "R3", tab)
+    return [("R3", "repeating-flag-wrong", "time scale copy computing is_repeating with > instead of >=")]
